@@ -540,6 +540,8 @@ class World:
 			else:
 				setattr(mod, name, old)
 		self.saved = []
+		from sim.seams import uninstall_seams
+		uninstall_seams()
 
 	def build(self):
 		sim, net, cfg = self.sim, self.net, self.cfg
